@@ -66,3 +66,11 @@ verus! {
 #[verifier::external_body]
 pub struct ExComposer(crate::composer::Composer);
 }
+
+verus! {
+/// ASSUMED contract of `core::cmp::min` (std), via vstd's Ord specification vocabulary
+pub assume_specification<T: Ord>[ core::cmp::min ](a: T, b: T) -> (r: T)
+    ensures
+        <T as vstd::std_specs::cmp::OrdSpec>::obeys_cmp_spec() ==>
+            r == (if vstd::std_specs::cmp::OrdSpec::cmp_spec(&a, &b) == core::cmp::Ordering::Greater { b } else { a });
+}
